@@ -146,6 +146,17 @@ class Facts:
                     walk(a)
             for t in self.an.stmt_terms.values():
                 walk(t)
+            # phis that feed used phis (loop-carried values merged inside the body)
+            changed = True
+            while changed:
+                changed = False
+                for phi in list(out):
+                    b, var = phi[1], phi[2]
+                    for p, _ in self.cfg.pred[b]:
+                        if p in self.an.ver_out:
+                            n = len(out)
+                            walk(self.an.var_term(self.an.ver_out[p], var))
+                            changed = changed or len(out) != n
             self._used_phis = out
         return self._used_phis
 
@@ -312,6 +323,14 @@ class Facts:
             if key == "slice::chunks" and len(args) == 2:
                 out.append(("le", ("len", item), args[1]))
                 out.append(("lt", ("const", "usize", 0), ("len", item)))
+            if key in ("core::iter::traits::iterator::Iterator::take_while", "core::iter::traits::iterator::Iterator::filter") \
+                    and len(args) == 2 and args[1][0] == "agg" and args[1][1] == "closure":
+                # items that come out satisfy the predicate; they are items of the inner iterator
+                out.extend(self.pred_atoms(args[1], item))
+                out.extend(self.item_facts(args[0], item))
+            if key == "core::iter::traits::iterator::Iterator::map" and len(args) == 2 and args[1][0] == "agg" \
+                    and args[1][1] == "closure":
+                out.extend(self.mapped_item_facts(args, item))
             if key == "core::iter::traits::iterator::Iterator::step_by" and args:
                 inner = args[0]
                 if inner[0] == "agg" and inner[1] == "adt" and inner[2][0].endswith("ops::range::Range"):
@@ -326,6 +345,110 @@ class Facts:
             if key == "core::iter::traits::iterator::Iterator::zip" and len(args) == 2:
                 out.extend(self.item_facts(args[0], ("field", item, "0")))
                 out.extend(self.item_facts(args[1], ("field", item, "1")))
+        return out
+
+    def _closure_to_parent(self, cagg, t, item, inner_item=None):
+        """term of closure `cagg` expressed over the parent's terms; the closure parameter (arg 2) stands for
+        `item` (by reference for predicates: *arg2)"""
+        crate = getattr(self.an, "crate", None)
+        if crate is None:
+            return None
+        from .closures import capture_map
+        from .core import mk_field, mk_bin
+        cl = crate.an(cagg[2])
+        cm = capture_map(crate, cl)
+        if cm is None:
+            return None
+        back = {cv: pv for pv, cv in cm.valmap}
+
+        def rec(x):
+            if not isinstance(x, tuple) or not x:
+                return x
+            if x in back:
+                pv = back[x]
+                if pv[0] == "addr" and pv[2] is None:
+                    vals = [v for (var, ver), v in self.an.term_of.items() if var == pv[1] and v[0] != "opq"]
+                    return vals[0] if len(vals) == 1 else None
+                return pv
+            if x == ("arg", 2):
+                return item
+            if x[0] == "mem" and x[2] == ("e",) and x[3] is None and x[1].startswith("A2"):
+                rest = x[1][2:]
+                t_ = item
+                for seg in [s for s in rest.split(".") if s]:
+                    if not seg.isdigit():
+                        return None
+                    t_ = mk_field(t_, seg, int(seg))
+                return t_
+            if x[0] in ("const", "constx"):
+                return x
+            if x[0] == "field" and len(x) == 3:
+                i_ = rec(x[1])
+                return None if i_ is None else mk_field(i_, x[2], int(x[2]) if str(x[2]).isdigit() else 0)
+            if x[0] == "bin":
+                a_, b_ = rec(x[2]), rec(x[3])
+                return None if a_ is None or b_ is None else mk_bin(x[1], a_, b_)
+            if x[0] in ("phi", "site", "opq", "mem", "at", "addr", "undef", "init"):
+                return None
+            ys = []
+            for z in x:
+                if isinstance(z, tuple):
+                    r_ = rec(z)
+                    if r_ is None:
+                        return None
+                    ys.append(r_)
+                else:
+                    ys.append(z)
+            return tuple(ys)
+        return rec(t)
+
+    def pred_atoms(self, cagg, item):
+        crate = getattr(self.an, "crate", None)
+        if crate is None:
+            return []
+        cl = crate.an(cagg[2])
+        rets = [ev for ev in cl.events if ev["k"] == "return"]
+        if len(rets) != 1:
+            return []
+        r = self._closure_to_parent(cagg, rets[0]["val"], item)
+        if r is None:
+            return []
+        return [a for a in atoms_of_bool(r, True) if a[0] not in ("true", "false")]
+
+    def mapped_item_facts(self, args, item):
+        """items of inner.map(|x| (f(x), g(x), ..)): each tuple component that is a plain function of x"""
+        crate = getattr(self.an, "crate", None)
+        if crate is None:
+            return []
+        cagg = args[1]
+        cl = crate.an(cagg[2])
+        rets = [ev for ev in cl.events if ev["k"] == "return"]
+        if len(rets) != 1:
+            return []
+        X = ("INNER",)
+        r = self._closure_to_parent(cagg, rets[0]["val"], X)
+        if r is None or r[0] != "agg" or r[1] != "tuple":
+            return []
+        out = []
+        inner_facts = self.item_facts(args[0], X)
+        from .core import mk_field
+        for i, comp in enumerate(r[3]):
+            me = mk_field(item, str(i), i)
+            if comp == X:
+                # component i is the inner item itself: it inherits the inner item's facts
+                for a in inner_facts:
+                    out.append(tuple(me if z == X else z for z in a))
+            else:
+                # component i == comp[X := component j that equals X], when such a j exists
+                js = [j for j, c2 in enumerate(r[3]) if c2 == X]
+                if js:
+                    def sub(z, j=js[0]):
+                        if z == X:
+                            return mk_field(item, str(j), j)
+                        if isinstance(z, tuple):
+                            return tuple(sub(q) if isinstance(q, tuple) else q for q in z)
+                        return z
+                    out.append(mk_eq(me, sub(comp)))
         return out
 
     def count_bound(self, d):
@@ -474,6 +597,13 @@ class Rel:
                     if a[0] == "lt" and a[2] == x[2] and a[1][0] == "const" and isinstance(a[1][2], int) and a[1][2] >= 0:
                         strict = True
             out.append((x[2], strict))           # unsigned: a - b <= a
+        if x[0] == "bin" and x[1] == "Add":
+            # integers: y < z  =>  y + 1 <= z
+            for y, c in ((x[2], x[3]), (x[3], x[2])):
+                if c[0] == "const" and c[2] == 1:
+                    for a in self.w:
+                        if a[0] == "lt" and a[1] == y:
+                            out.append((a[2], False))
         if x[0] == "bin" and x[1] in ("Div", "Shr"):
             out.append((x[2], False))
         if x[0] == "bin" and x[1] == "Rem":
@@ -506,10 +636,23 @@ class Rel:
         return u
 
     def lt(self, a, b):
-        return self._reach(a, b, True)
+        if self._reach(a, b, True):
+            return True
+        if b[0] == "min":
+            return self.lt(a, b[1]) and self.lt(a, b[2])        # greatest lower bound
+        return False
 
-    def le(self, a, b):
-        return a == b or self._reach(a, b, False)
+    def le(self, a, b, depth=0):
+        if a == b or self._reach(a, b, False):
+            return True
+        if b[0] == "min":
+            return self.le(a, b[1], depth) and self.le(a, b[2], depth)
+        if depth < 2 and a[0] == "bin" and a[1] == "Add":
+            # integers: x < b  =>  x + 1 <= b
+            for x, c in ((a[2], a[3]), (a[3], a[2])):
+                if c == ("const", "usize", 1) and self.lt(x, b):
+                    return True
+        return False
 
     def eq(self, a, b):
         return a == b or (self._reach(a, b, False) and self._reach(b, a, False))
@@ -542,6 +685,17 @@ class Rel:
                 if ns not in seen:
                     seen.add(ns)
                     work.append(ns)
+            if not work and not only_eq:
+                # a <= x and a <= y  =>  a <= min(x, y)
+                reached = {}
+                for (t, st) in seen:
+                    reached[t] = reached.get(t, False) or st
+                for t in uni:
+                    if t[0] == "min" and t[1] in reached and t[2] in reached:
+                        ns = (t, reached[t[1]] and reached[t[2]])
+                        if ns not in seen and (t, True) not in seen:
+                            seen.add(ns)
+                            work.append(ns)
         return False
 
     def has(self, atom):
